@@ -42,18 +42,44 @@ fn type_of(k: u8) -> u16 {
     }
 }
 
+/// What stands for "ordinary attribute" at wire position i: flavour 0 = SOFTWARE everywhere;
+/// flavour 1 = by position SOFTWARE / unknown comprehension-optional / unknown
+/// comprehension-required type (an attribute the library has no decoder for is just as
+/// "ordinary" to the ordering rule).  Returns (type, value).
+fn ordinary(i: usize, flavour: u8) -> (u16, Vec<u8>) {
+    let v = format!("s{}", i).into_bytes();
+    match (flavour, i % 3) {
+        (0, _) | (_, 2) => (T_SOFTWARE, v),
+        (_, 0) => (0xFFEE, v),
+        _ => (0x7F77, v),
+    }
+}
+
+fn ordinary_matches(a: &stun_rs::attributes::StunAttribute, i: usize, flavour: u8) -> bool {
+    let (typ, val) = ordinary(i, flavour);
+    match bridge::from_lib(a) {
+        View::Attr(LAttr::Software(s)) => typ == T_SOFTWARE && s.as_bytes() == val.as_slice(),
+        // whether the raw data is kept is C18's business
+        View::Unknown { typ: t, data } => t == typ && data.map(|d| d == val).unwrap_or(true),
+        _ => false,
+    }
+}
+
 fn letters(seq: &[u8]) -> String {
     seq.iter().map(|k| ['o', 'M', 'S', 'F'][*k as usize]).collect()
 }
 
 /// wire bytes for a sequence; `wrong[i]` corrupts the MAC/CRC of attribute i
-fn build(seq: &[u8], wrong: &[bool], txid: &[u8; 12], method: u16, class: u8) -> Vec<u8> {
+fn build(seq: &[u8], wrong: &[bool], txid: &[u8; 12], method: u16, class: u8, flavour: u8) -> Vec<u8> {
     let key = PASSWORD.as_bytes().to_vec();
     let attrs: Vec<WAttr> = seq
         .iter()
         .enumerate()
         .map(|(i, k)| match k {
-            0 => WAttr::Raw(T_SOFTWARE, format!("s{}", i).into_bytes()),
+            0 => {
+                let (t, v) = ordinary(i, flavour);
+                WAttr::Raw(t, v)
+            }
             1 => WAttr::Mi(key.clone(), if wrong[i] { Some(0x40) } else { None }),
             2 => WAttr::Mi256(key.clone(), if wrong[i] { Some(0x01) } else { None }),
             _ => WAttr::Fp(if wrong[i] { Some(0x0000_0100) } else { None }),
@@ -71,6 +97,7 @@ fn check_result(
     got: &stun_rs::StunMessage,
     label: &str,
     opts: Option<u8>,
+    flavour: u8,
 ) {
     let raw = wire::parse(bytes).expect("reference parses its own bytes");
     let attrs = got.attributes();
@@ -79,7 +106,7 @@ fn check_result(
         for (a, wi) in attrs.iter().zip(expect_idx.iter()) {
             let ra = &raw.attrs[*wi];
             let same = match seq[*wi] {
-                0 => bridge::from_lib(a) == View::Attr(LAttr::Software(format!("s{}", wi))),
+                0 => ordinary_matches(a, *wi, flavour),
                 _ => a.attribute_type().as_u16() == ra.typ && bridge::tail_equals(a, &ra.value),
             };
             if !same {
@@ -105,7 +132,7 @@ fn check_result(
             for wi in next..seq.len() {
                 let ra = &raw.attrs[wi];
                 let same = match seq[wi] {
-                    0 => bridge::from_lib(a) == View::Attr(LAttr::Software(format!("s{}", wi))),
+                    0 => ordinary_matches(a, wi, flavour),
                     _ => a.attribute_type().as_u16() == ra.typ && bridge::tail_equals(a, &ra.value),
                 };
                 if same {
@@ -188,7 +215,7 @@ fn first_wrong_shape(seq: &[u8], wrong: &[bool]) -> String {
     }
 }
 
-fn run_sequence(ctx: &mut Ctx, seq: &[u8], rng: &mut Rng, key: &HMACKey) {
+fn run_sequence(ctx: &mut Ctx, seq: &[u8], rng: &mut Rng, key: &HMACKey, flavour: u8) {
     let types: Vec<u16> = seq.iter().map(|k| type_of(*k)).collect();
     let admitted = wire::admit(&types);
     let admitted_idx: Vec<usize> = (0..seq.len()).filter(|i| admitted[*i]).collect();
@@ -222,7 +249,7 @@ fn run_sequence(ctx: &mut Ctx, seq: &[u8], rng: &mut Rng, key: &HMACKey) {
     }
 
     for (vname, wrong, validating_ok) in &variants {
-        let bytes = build(seq, wrong, &txid, method, class);
+        let bytes = build(seq, wrong, &txid, method, class, flavour);
         ctx.count("variants");
         if vname.starts_with("admitted-wrong") {
             ctx.count("variants.admitted-wrong");
@@ -252,7 +279,7 @@ fn run_sequence(ctx: &mut Ctx, seq: &[u8], rng: &mut Rng, key: &HMACKey) {
                 // every wire attribute in order (compared with validation off only)
                 if !validation {
                     match res {
-                        Ok((m, _)) => check_result(ctx, seq, &bytes, &all_idx, &m, "not-ignore", o),
+                        Ok((m, _)) => check_result(ctx, seq, &bytes, &all_idx, &m, "not-ignore", o, flavour),
                         Err(e) => ctx.violation(
                             "not-ignore-decode-failed",
                             format!("{} with {}: {}", letters(seq), opts_name(o), e),
@@ -264,7 +291,7 @@ fn run_sequence(ctx: &mut Ctx, seq: &[u8], rng: &mut Rng, key: &HMACKey) {
             }
             if !validation {
                 match res {
-                    Ok((m, _)) => check_result(ctx, seq, &bytes, &admitted_idx, &m, "default", o),
+                    Ok((m, _)) => check_result(ctx, seq, &bytes, &admitted_idx, &m, "default", o, flavour),
                     Err(e) => ctx.violation(
                         "decode-failed",
                         format!("{} ({}) with {}: {}", letters(seq), vname, opts_name(o), e),
@@ -281,7 +308,7 @@ fn run_sequence(ctx: &mut Ctx, seq: &[u8], rng: &mut Rng, key: &HMACKey) {
                 continue;
             }
             match (res, *validating_ok) {
-                (Ok((m, _)), true) => check_result(ctx, seq, &bytes, &admitted_idx, &m, "validated", o),
+                (Ok((m, _)), true) => check_result(ctx, seq, &bytes, &admitted_idx, &m, "validated", o, flavour),
                 (Err(e), true) => ctx.violation(
                     &format!("validation-of-non-admitted:{}", failing_shape(seq, &e)),
                     format!(
@@ -314,7 +341,7 @@ fn run_sequence(ctx: &mut Ctx, seq: &[u8], rng: &mut Rng, key: &HMACKey) {
         }
     }
     if ctx.want_sample() && seq.len() >= 4 && rng.chance(1, 50) {
-        let b = build(seq, &vec![false; seq.len()], &txid, method, class);
+        let b = build(seq, &vec![false; seq.len()], &txid, method, class, flavour);
         ctx.sample(
             J::obj()
                 .set("sequence", J::s(letters(seq)))
@@ -324,7 +351,9 @@ fn run_sequence(ctx: &mut Ctx, seq: &[u8], rng: &mut Rng, key: &HMACKey) {
         );
     }
     let nontrivial = seq.iter().any(|k| *k != 0);
-    ctx.eval(if nontrivial { Some(fnv64(seq)) } else { None });
+    let mut h = seq.to_vec();
+    h.push(0x10 + flavour);
+    ctx.eval(if nontrivial { Some(fnv64(&h)) } else { None });
 }
 
 pub fn run(ctx: &mut Ctx) {
@@ -334,7 +363,18 @@ pub fn run(ctx: &mut Ctx) {
     ctx.cases("sequences", total, |ctx, case, rng| {
         let seq = seq_from_index(case);
         ctx.count("sequences.enumerated");
-        run_sequence(ctx, &seq, rng, &key);
+        run_sequence(ctx, &seq, rng, &key, 0);
+    });
+    // the same enumeration with unknown attribute types standing for "ordinary"
+    let unk_len: u32 = if ctx.quick() { 6 } else { 8 };
+    let unk_total = count_upto(unk_len);
+    ctx.cases("sequences-unknown-ordinary", unk_total, |ctx, case, rng| {
+        let seq = seq_from_index(case);
+        if !seq.contains(&0) {
+            return;
+        }
+        ctx.count("sequences.enumerated-unknown-ordinary");
+        run_sequence(ctx, &seq, rng, &key, 1);
     });
     ctx.exhaustive.insert(
         format!("all {} sequences of length <= {} over {{ordinary, MI, SHA256, FP}}", total - 1, exhaustive_len),
@@ -348,6 +388,7 @@ pub fn run(ctx: &mut Ctx) {
         // bias towards the interesting kinds
         let seq: Vec<u8> = (0..len).map(|_| *rng.pick(&[0u8, 0, 1, 2, 3, 3])).collect();
         ctx.count("sequences.sampled-long");
-        run_sequence(ctx, &seq, rng, &key);
+        let flavour = rng.below(2) as u8;
+        run_sequence(ctx, &seq, rng, &key, flavour);
     });
 }
